@@ -258,6 +258,50 @@ pub fn check_pair_with(out: &mut Out, src: &str, c0: &Ctx, ctx_desc: String, reu
         tree_mut!("Node::eval_boolean_with_context_mut", proj_boolean, eval_boolean_with_context_mut);
         tree_mut!("Node::eval_tuple_with_context_mut", proj_tuple, eval_tuple_with_context_mut);
         tree_mut!("Node::eval_empty_with_context_mut", proj_empty, eval_empty_with_context_mut);
+        // a node inside the tree is an expression of its own: the typed views of up to four inner nodes are the
+        // projections of the untyped evaluation of that node
+        let inner: Vec<&Node> = t.iter().collect();
+        let stride = (inner.len() / 4).max(1);
+        for node in inner.iter().step_by(stride).take(4) {
+            let base: R<Value> = match guard(|| node.eval_with_context(c0)) {
+                Ok(b) => b,
+                Err(p) => {
+                    ck.out.violation("panic", src.to_string(), "Ok or Err".into(), api::panic_text(&p));
+                    break;
+                },
+            };
+            typed!(ck, "inner node: Node::eval_string_with_context", proj_string, &base, node.eval_string_with_context(c0));
+            typed!(ck, "inner node: Node::eval_int_with_context", proj_int, &base, node.eval_int_with_context(c0));
+            typed!(ck, "inner node: Node::eval_float_with_context", proj_float, &base, node.eval_float_with_context(c0));
+            typed!(ck, "inner node: Node::eval_number_with_context", proj_number, &base, node.eval_number_with_context(c0));
+            typed!(ck, "inner node: Node::eval_boolean_with_context", proj_boolean, &base, node.eval_boolean_with_context(c0));
+            typed!(ck, "inner node: Node::eval_tuple_with_context", proj_tuple, &base, node.eval_tuple_with_context(c0));
+            typed!(ck, "inner node: Node::eval_empty_with_context", proj_empty, &base, node.eval_empty_with_context(c0));
+            let mut cb = c0.clone();
+            let base_m: R<Value> = match guard(|| node.eval_with_context_mut(&mut cb)) {
+                Ok(b) => b,
+                Err(p) => {
+                    ck.out.violation("panic", src.to_string(), "Ok or Err".into(), api::panic_text(&p));
+                    break;
+                },
+            };
+            macro_rules! inner_mut {
+                ($name:expr, $proj:ident, $m:ident) => {{
+                    let mut c = c0.clone();
+                    let want = $proj(&base_m);
+                    let got = guard(|| node.$m(&mut c));
+                    ck.expect($name, &want, got);
+                    ck.same_ctx($name, &cb, &c);
+                }};
+            }
+            inner_mut!("inner node: Node::eval_string_with_context_mut", proj_string, eval_string_with_context_mut);
+            inner_mut!("inner node: Node::eval_int_with_context_mut", proj_int, eval_int_with_context_mut);
+            inner_mut!("inner node: Node::eval_float_with_context_mut", proj_float, eval_float_with_context_mut);
+            inner_mut!("inner node: Node::eval_number_with_context_mut", proj_number, eval_number_with_context_mut);
+            inner_mut!("inner node: Node::eval_boolean_with_context_mut", proj_boolean, eval_boolean_with_context_mut);
+            inner_mut!("inner node: Node::eval_tuple_with_context_mut", proj_tuple, eval_tuple_with_context_mut);
+            inner_mut!("inner node: Node::eval_empty_with_context_mut", proj_empty, eval_empty_with_context_mut);
+        }
     }
     let n = ck.n;
     out.evals(n);
@@ -311,6 +355,15 @@ impl Phase for Pairs {
             let log = observe::new_log();
             let c0 = api::ctx_from_model(&model, &log);
             out.count("reused precompiled trees");
+            if r.chance(1, 3) {
+                // the tree arrives through `clone_from` over another (longer, shorter, differently shaped) old tree
+                let other = r.below(self.recent.len());
+                let mut t2: Node = self.recent[other].1.clone();
+                t2.clone_from(tree);
+                out.count("trees received through clone_from");
+                check_pair_with(out, &src, &c0, format!("context {}; builtins {}; tree received through clone_from over the tree of `{}`", model.show_vars(), if model.builtins_off { "off" } else { "on" }, self.recent[other].0), Some(&t2));
+                return;
+            }
             check_pair_with(out, &src, &c0, format!("context {}; builtins {}; functions {:?}; reused tree", model.show_vars(), if model.builtins_off { "off" } else { "on" }, model.funs.keys().collect::<Vec<_>>()), Some(tree));
             return;
         }
